@@ -307,7 +307,8 @@ package calendar
 
 //@ func (solarWeek *SolarWeek) GetIndex() int [C15]
 //@   requires weekOK(solarWeek)
-//@   ensures result == divf(solarWeek.day+woff(jdn(solarWeek.year, solarWeek.month, 1), solarWeek.start)-1, 7) + 1
+//@   ensures result == divf(jdn(solarWeek.year, solarWeek.month, solarWeek.day)-jdn(solarWeek.year, solarWeek.month, 1)+woff(jdn(solarWeek.year, solarWeek.month, 1), solarWeek.start), 7) + 1
+//@   use dayLinear(solarWeek.year, solarWeek.month, solarWeek.day)
 
 //@ func (solarWeek *SolarWeek) GetIndexInYear() int [C15]
 //@   requires weekOK(solarWeek)
@@ -426,3 +427,28 @@ package calendar
 //@     assert(v != nil && v.start == w.start)
 //@     assert(jdn(v.year, v.month, v.day) > jdn(w.year, w.month, w.day))
 //@     assert(jdn(v.year, v.month, v.day) <= jdn(w.year, w.month, w.day)+7)
+
+//@ # the weeks of a month start with the week of the 1st and follow one every 7 days; that their number equals
+//@ # GetWeeksOfMonth is executed for every month and week start by the bounded stand-in month_weeks (the count needs a
+//@ # loop over a growing list, which the engine unrolls but the solvers do not close within the budget)
+//@ ghost func monthWeeks(sm *SolarMonth, start int) [C15]
+//@   requires 1 <= sm.year && sm.year <= 9998 && 1 <= sm.month && sm.month <= 12 && 0 <= start && start <= 6
+//@   split woff(jdn(sm.year, sm.month, 1), start) in 0..6
+//@   body
+//@     yearOfDate(sm.year, sm.month, 1)
+//@     monthStep(sm.year, sm.month)
+//@     j1 := jdn(sm.year, sm.month, 1)
+//@     f0 := j1 - woff(j1, start)
+//@     monthOfDay(sm.year, sm.month, f0+7)
+//@     monthOfDay(sm.year, sm.month, f0+14)
+//@     monthOfDay(sm.year, sm.month, f0+21)
+//@     monthOfDay(sm.year, sm.month, f0+28)
+//@     monthOfDay(sm.year, sm.month, f0+35)
+//@     monthOfDay(sm.year, sm.month, f0+42)
+//@     l := sm.GetWeeks(start)
+//@     n := SolarUtil.GetWeeksOfMonth(sm.year, sm.month, start)
+//@     assert(3 <= n && n <= 6)
+//@     w0 := lat[*SolarWeek](l, 0)
+//@     assert(w0.year == sm.year && w0.month == sm.month && w0.day == 1 && w0.start == start)
+//@     w2 := lat[*SolarWeek](l, 2)
+//@     assert(jdn(w2.year, w2.month, w2.day) == j1+14 && w2.start == start)
